@@ -254,6 +254,33 @@ def oracle(cfg, bounds, args, r):
             expb = math.log10(bv) if is_log else bv
             if not close(r[which][i], expb, 1e-12):
                 fails.append("%s[%d]=%r is not the bound of %s (%r)" % (which, i, r[which][i], key, expb))
+    # the mapping is a function of the VALUE of the vector: one buffer (ndarray / list) updated in place and
+    # converted again on the same manager (finite-difference loops, coordinate scans), and dictionaries that the
+    # caller edited after an earlier conversion
+    for kind in ("ndarray", "list"):
+        buf = np.array(args, dtype=float) if kind == "ndarray" else [float(a) for a in args]
+        for i in range(min(n, 6)):
+            buf[i] = buf[i] + 0.61
+            try:
+                kw_b = pm.args2kwargs(buf)
+                back_b = [float(x) for x in pm.kwargs2args(*kw_b)]
+            except Exception as e:  # noqa
+                fails.append("%s buffer updated in place: %s" % (kind, err_enum(e)))
+                break
+            if len(back_b) != n or not all(close(a, float(b), 1e-12) for a, b in zip(back_b, buf)):
+                fails.append("round trip of a %s updated in place (slot %d) on a re-used manager: %r -> %r"
+                             % (kind, i, [float(b) for b in buf], back_b))
+                break
+    try:
+        kw_e = pm.args2kwargs(list(args))
+        for d in list(kw_e[:4]) + list(kw_e[4] or []):
+            for k in list(d):
+                d[k] = -123.5 if not isinstance(d[k], (list, tuple, np.ndarray)) else [-123.5 for _ in d[k]]
+        again = [canon(flatten(d)) for d in dict_list(pm.args2kwargs(list(args)))]
+        if [[(k, j, b2f(v)) for k, j, v in blk] for blk in again] != [[(k, j, b2f(v)) for k, j, v in blk] for blk in base]:
+            fails.append("dictionaries of an equal vector differ after the caller edited the earlier result")
+    except Exception as e:  # noqa
+        fails.append("second conversion after the caller edited the result: %s" % err_enum(e))
     # fixed parameters
     fixed_by_block = [cfg.get("kwargs_fixed_" + b) or {} for b in ("cosmo", "lens", "kin", "source")] + \
         list(cfg.get("kwargs_fixed_los") or [{} for _ in (cfg["los_distributions"] or [])])
